@@ -119,6 +119,18 @@ func init() {
 										return viol("ambiguous prefix", []string{fmt.Sprintf("error %q does not list candidate %q (all: %v)", oc.Err, c, amb)}, doc)
 									}
 								}
+								// an ambiguous prefix is an error under require-order too (it is not "the first non-option")
+								{
+									pro := *p
+									pro.ReqOrder = true
+									ocr := Run(&pro, argv, false)
+									res.Execs++
+									if !ocr.HasErr {
+										doc.Got = ocr
+										doc.Prog = &pro
+										return viol("ambiguous prefix", []string{fmt.Sprintf("with require-order the ambiguous prefix %q (matches %v) was accepted silently, remaining %q", pfx, amb, ocr.Remaining)}, doc)
+									}
+								}
 								// no option value changed because of it: state equals the state of the argv cut before the token
 								cut := Run(p, argv[:len(argv)-1], false)
 								res.Execs++
